@@ -11,7 +11,7 @@ instrument for "a data race occurs on the real code".  Violation: a race report 
 access) whose both accesses lie in SDK code, on a schema value used as the statement allows; or a result that
 differs from the same call made in isolation.
 """
-import os, json, threading
+import os, json, threading, random
 from vlib import common
 from props import instance_common as ic
 
@@ -19,9 +19,10 @@ SPECS = ["InstanceMC", "InstanceTrace"]
 PKGS = ["./cmd/instance"]
 
 DEV_PAR = {"AliasDefaults": {"race"}, "LazyUnsync": {"race", "history"}, "NoStepMutex": {"race", "initonce"},
-           "SharedMarks": {"race", "history"}, "SharedInProgress": {"history"}}
+           "SharedMarks": {"race", "history"}, "SharedInProgress": {"history"},
+           "SharedError": {"race", "history"}}
 # kinds whose defects are steady-state (scratch state that must be per call): every goroutine repeats its calls
-STEADY = {"chain", "compat2"}
+STEADY = {"chain", "compat2", "disabled"}
 NS = [2, 4, 8, 16]
 
 
@@ -73,7 +74,7 @@ def make_cases(ctx, scheds, thorough):
         for ck, n in plan:
             steady = kind in STEADY
             cases.append(dict(mode="race", kind=kind, ckind=ck, origin=origin, progs=progs, n=n, seed=ctx.seed,
-                              iters=((1000 if thorough else 300) if steady else 1),
+                              iters=((1000 if thorough else 150) if steady else 1),
                               trials=(3 if glob else ((6 if thorough else 3) if steady else (40 if thorough else 25))),
                               procs=((6 if thorough else 4) if glob else (2 if thorough else 1)),
                               targeted=targeted))
@@ -117,7 +118,8 @@ def run(ctx):
     tm.start()
     wit = ic.deviations(ctx, "instance_dev_par.cfg", DEV_PAR,
                         must_violate={"SharedMarks": ("instance_devv_par_iso.cfg", "Isolated"),
-                                      "SharedInProgress": ("instance_devv_par_iso.cfg", "Isolated")})
+                                      "SharedInProgress": ("instance_devv_par_iso.cfg", "Isolated"),
+                                      "SharedError": ("instance_devv_par_iso.cfg", "Isolated")})
     tm.join()
     th.join()
     for d in (main, build):
@@ -131,11 +133,19 @@ def run(ctx):
     drv = build["bin"]
 
     scheds = []
+    cap = 40 if thorough else 6          # targeted schedules per (deviation, kind, origin)
     for dev in sorted(wit):
+        taken = {}
         for w in wit[dev]:
             if w["what"] in ("race", "history", "initonce"):
                 p = progs_of_witness(w)
                 if len(p) >= 2:
+                    k = (w["kind"], w["origin"])
+                    keys = taken.setdefault(k, set())
+                    pk = prog_key(p)
+                    if pk in keys or len(keys) >= cap:
+                        continue
+                    keys.add(pk)
                     scheds.append((w["kind"], w["origin"], p, True))
     ntarget = len({(k, o, prog_key(p)) for k, o, p, _ in scheds})
     for rec in recs:
@@ -146,6 +156,8 @@ def run(ctx):
     # the package-level meta-schemas: describing and rebuilding concurrently (beyond the model: detector only)
     cases += [dict(mode="race", kind="meta", ckind="meta", origin="fresh", progs=[[dict(op="describe_rebuild", tok="-", m=None, exp=[])]],
                    n=n, trials=(40 if thorough else 8), procs=(4 if thorough else 2), seed=ctx.seed, targeted=False) for n in (2, 8, 16)]
+    # the driver hands contiguous shards to its worker processes: spread the long (steady-state) cases
+    random.Random(ctx.seed).shuffle(cases)
     ctx.log("schedules: %d distinct (%d from deviation witnesses) -> %d cases" % (
         len({(k, o, prog_key(p)) for k, o, p, _ in scheds}), ntarget, len(cases)))
 
@@ -156,6 +168,11 @@ def run(ctx):
     trials = sum(x["res"].get("trials", 0) for x in results)
     procs = sum(x["res"].get("procs", 0) for x in results)
     reports = sum(x["res"].get("reports", 0) for x in results)
+    by_kind = {}
+    for c, x in zip(cases, results):
+        k = "%s/%s" % (c["kind"], c["origin"])
+        by_kind[k] = round(by_kind.get(k, 0) + x["res"].get("wall_ms", 0) / 1000.0, 1)
+    ctx.extra["case_seconds_by_kind"] = by_kind
     ctx.extra.update(trials=trials, fresh_processes=procs, race_reports=reports, model_variant=ic.DESIGN)
     ctx.log("trials: %d in %d fresh processes; race reports: %d" % (trials, procs, reports))
     for c in cases[:3] + cases[-2:]:
